@@ -3,6 +3,7 @@ package zzsim
 import (
 	"fmt"
 	"testing"
+	"time"
 )
 
 func cfgs() []Config {
@@ -107,5 +108,43 @@ func TestSendOnClosedPanicsAndRecvOnClosedReturnsZero(t *testing.T) {
 	}})
 	if rep.Outcome != "ok" || v != 0 || ok || panicked != "send on closed channel" {
 		t.Fatalf("outcome %s v %d ok %v panicked %q", rep.Outcome, v, ok, panicked)
+	}
+}
+
+// A spin-wait on a flag makes progress under every strategy (fairness bound).
+func TestSpinWaitTerminates(t *testing.T) {
+	for _, c := range cfgs() {
+		flag := false
+		n := 0
+		rep := Run(c, []string{"spinner", "setter"}, []func(){
+			func() {
+				for !flag {
+					Y(0)
+					n++
+				}
+			},
+			func() {
+				Y(0)
+				flag = true
+			},
+		})
+		if rep.Outcome != "ok" {
+			t.Fatalf("%+v: outcome %s after %d spins", c, rep.Outcome, n)
+		}
+	}
+}
+
+func TestSelectWithTimeout(t *testing.T) {
+	for _, c := range cfgs() {
+		work := MakeChan[int](0)
+		which := 0
+		rep := Run(c, []string{"waiter"}, []func(){func() {
+			var w SelSlot[int]
+			var tm SelSlot[time.Time]
+			which = Select(false, work.RecvCase(&w), After(5*time.Second).RecvCase(&tm)).I
+		}})
+		if rep.Outcome != "ok" || which != 1 || rep.SimTimeNs < int64(5*time.Second) {
+			t.Fatalf("%+v: outcome %s which %d simtime %d", c, rep.Outcome, which, rep.SimTimeNs)
+		}
 	}
 }
